@@ -89,6 +89,10 @@ const (
 	LElem
 	LGlobal
 	LArr // a whole backing array (of the element family) viewed as a Go array value
+	// LChoice: one of two locations of the same type, selected by a condition (a pointer that
+	// is the address of a struct field on one path and of a local on another). Path is applied
+	// to whichever alternative is selected; Root is the type the alternatives designate.
+	LChoice
 )
 
 // PathElem is a step into a composite: a struct field or an array index.
@@ -108,6 +112,20 @@ type Loc struct {
 	Glob string     // LGlobal name
 	Path []PathElem
 	Ty   types.Type // type of the designated location
+	Sel  *Term      // LChoice: true selects AltA
+	AltA *Loc
+	AltB *Loc
+}
+
+// alt returns alternative a (or b) of a choice location with the choice's path applied.
+func (l Loc) alt(first bool) Loc {
+	a := *l.AltB
+	if first {
+		a = *l.AltA
+	}
+	a.Path = append(append([]PathElem{}, a.Path...), l.Path...)
+	a.Ty = l.Ty
+	return a
 }
 
 type Cell struct {
@@ -487,7 +505,11 @@ func samePath(a, b []PathElem) bool {
 }
 
 func mergeLoc(c *Term, a, b Loc) Loc {
-	if a.Kind != b.Kind || !samePath(a.Path, b.Path) {
+	if a.Kind != b.Kind || !samePath(a.Path, b.Path) || a.Kind == LChoice {
+		if a.Ty != nil && b.Ty != nil && types.Identical(a.Ty, b.Ty) {
+			ca, cb := a, b
+			return Loc{Kind: LChoice, Sel: c, AltA: &ca, AltB: &cb, Root: a.Ty, Ty: a.Ty}
+		}
 		unsup("merge of pointers of different shapes")
 	}
 	out := a
@@ -539,6 +561,12 @@ func valuesEqual(a, b Value) *Term {
 }
 
 func locEqual(a, b Loc) *Term {
+	if a.Kind == LChoice {
+		return Ite(a.Sel, locEqual(a.alt(true), b), locEqual(a.alt(false), b))
+	}
+	if b.Kind == LChoice {
+		return Ite(b.Sel, locEqual(a, b.alt(true)), locEqual(a, b.alt(false)))
+	}
 	if a.Kind != b.Kind {
 		// a nil heap pointer compared with a local address
 		if a.Kind == LHeap && len(a.Path) == 0 && b.Kind != LHeap {
